@@ -206,6 +206,14 @@ class MHLHistory:
             all_paths.update(hash_list.renamed_path_with_previous_path(self.get_root_path()))
         for child_history in self.child_histories:
             all_paths.update(child_history.renamed_path_with_previous_path())
+        # a file can be renamed again in a later generation: map every former path to the path the file has now
+        for previous_path in all_paths:
+            current_path = all_paths[previous_path]
+            visited = {previous_path}
+            while current_path in all_paths and current_path not in visited:
+                visited.add(current_path)
+                current_path = all_paths[current_path]
+            all_paths[previous_path] = current_path
         return all_paths
 
     def hash_list_with_file_name(self, file_name) -> Optional[MHLHashList]:
